@@ -1176,8 +1176,67 @@ fn c17_one_compaction_round_per_wakeup(dir: PathBuf) -> ScenFut<'static> {
     })
 }
 
+fn c12_damaged_first_header(dir: PathBuf) -> ScenFut<'static> {
+    Box::pin(async move {
+        let cfg = base_cfg();
+        let t = cfg.open(&dir).map_err(|e| e.to_string())?;
+        put(&t, &[(b"a", b"1")]).await?;
+        put(&t, &[(b"b", b"2")]).await?;
+        close(t).await;
+        let wal = dir.join("wal");
+        let seg = std::fs::read_dir(&wal).map_err(|e| e.to_string())?.flatten().map(|e| e.path()).find(|p| p.extension().map(|x| x == "wal").unwrap_or(false)).ok_or("no segment")?;
+        let mut bytes = std::fs::read(&seg).map_err(|e| e.to_string())?;
+        bytes[6] ^= 0xff; // record-type byte of the first header
+        std::fs::write(&seg, &bytes).map_err(|e| e.to_string())?;
+        match cfg.open(&dir) {
+            Ok(t) => {
+                let r = put(&t, &[(b"c", b"3")]).await;
+                close(t).await;
+                r.map_err(|e| format!("commit after recovery from a damaged first record header failed: {e}"))
+            }
+            Err(e) => Err(format!("two commits; close; the record-type byte of the segment's first header altered; open in the default (repairing) recovery mode fails instead of keeping the valid prefix: {e}")),
+        }
+    })
+}
+
+fn c12_compression_record_unchecked(dir: PathBuf) -> ScenFut<'static> {
+    Box::pin(async move {
+        use surrealkv::verif::{verif_wal_read_segment, VerifWal};
+        std::fs::create_dir_all(&dir).map_err(|e| e.to_string())?;
+        let recs: Vec<Vec<u8>> = vec![b"first record".to_vec(), vec![7u8; 300]];
+        let mut w = VerifWal::open(&dir, 1 << 30, true).map_err(|e| e.to_string())?;
+        for r in &recs {
+            w.append(r).map_err(|e| e.to_string())?;
+        }
+        w.close().map_err(|e| e.to_string())?;
+        let seg = std::fs::read_dir(&dir).map_err(|e| e.to_string())?.flatten().map(|e| e.path()).find(|p| p.extension().map(|x| x == "wal").unwrap_or(false)).ok_or("no segment")?;
+        let mut bytes = std::fs::read(&seg).map_err(|e| e.to_string())?;
+        bytes[7] ^= 0x01; // payload of the compression-type record
+        std::fs::write(&seg, &bytes).map_err(|e| e.to_string())?;
+        let (got, end) = verif_wal_read_segment(&seg).map_err(|e| e.to_string())?;
+        for (i, (g, _)) in got.iter().enumerate() {
+            if i >= recs.len() || *g != recs[i] {
+                return Err(format!("compressed segment, one bit of the compression-type record's payload flipped: record #{} is read back as {} bytes that were never appended (reading ended with {:?})", i, g.len(), end));
+            }
+        }
+        Ok(())
+    })
+}
+
 pub fn all() -> Vec<Scenario> {
     vec![
+        Scenario {
+            id: "C12-damaged-first-header",
+            property: "C12",
+            title: "record-type byte of the first record header altered, open in repairing mode",
+            run: c12_damaged_first_header,
+        },
+        Scenario {
+            id: "C12-compression-record-unchecked",
+            property: "C12",
+            title: "payload bit of the compression-type record flipped in a compressed segment",
+            run: c12_compression_record_unchecked,
+        },
         Scenario {
             id: "C17-bottom-level-outranks-l0",
             property: "C17",
